@@ -39,6 +39,9 @@ type Spec struct {
 	OutsideClaim []string      `json:"outside_claim"`
 	Assumptions  []string      `json:"assumptions"`
 	Shrink       []ShrinkSpec  `json:"shrink"`
+	// ShrinkSets: named alternatives to Shrink; a harness selects one with "shrink_set" (the program is loaded once
+	// per distinct set)
+	ShrinkSets map[string][]ShrinkSpec `json:"shrink_sets"`
 	ExtraFiles   []string      `json:"extra_files"` // additional harness prefixes to overlay
 }
 
@@ -55,6 +58,16 @@ var (
 	repoDir  = "/repo"
 	verifDir = "/verif"
 )
+
+// specFor returns the spec with the shrink overlays of the named set (the spec itself for "").
+func specFor(spec *Spec, set string) *Spec {
+	if set == "" {
+		return spec
+	}
+	c := *spec
+	c.Shrink = spec.ShrinkSets[set]
+	return &c
+}
 
 func fatal(code int, format string, a ...interface{}) {
 	fmt.Fprintf(os.Stderr, format+"\n", a...)
@@ -787,10 +800,30 @@ func main() {
 	if len(hs) == 0 {
 		fatal(2, "no harness selected")
 	}
-	prog, pkgs, err := loadProgram(&spec, workDir)
-	if err != nil {
-		fmt.Printf("BROKEN-CHECK property=%s reason=load: %v\n", spec.Property, err)
-		os.Exit(2)
+	type loaded struct {
+		prog *ssa.Program
+		pkgs map[string]*ssa.Package
+	}
+	progs := map[string]*loaded{}
+	var prog *ssa.Program
+	for _, h := range hs {
+		if progs[h.ShrinkSet] != nil {
+			continue
+		}
+		if h.ShrinkSet != "" && spec.ShrinkSets[h.ShrinkSet] == nil {
+			fatal(2, "harness %s: unknown shrink_set %q", h.Name, h.ShrinkSet)
+		}
+		wd := filepath.Join(workDir, "load-"+h.ShrinkSet)
+		os.MkdirAll(wd, 0o755)
+		p, pk, err := loadProgram(specFor(&spec, h.ShrinkSet), wd)
+		if err != nil {
+			fmt.Printf("BROKEN-CHECK property=%s reason=load: %v\n", spec.Property, err)
+			os.Exit(2)
+		}
+		progs[h.ShrinkSet] = &loaded{p, pk}
+		if prog == nil {
+			prog = p
+		}
 	}
 	loadS := time.Since(t0).Seconds()
 
@@ -804,7 +837,7 @@ func main() {
 			defer wg.Done()
 			sem <- struct{}{}
 			defer func() { <-sem }()
-			reports[i] = runHarness(prog, pkgs, h, *solverKind)
+			reports[i] = runHarness(progs[h.ShrinkSet].prog, progs[h.ShrinkSet].pkgs, h, *solverKind)
 			fmt.Println(reports[i].summary())
 		}(i, h)
 	}
@@ -843,7 +876,7 @@ func main() {
 			}
 			var outTxt string
 			for t := 0; t < tries && !confirmed; t++ {
-				res, out, err := nativeReplay(&spec, rf, path, workDir)
+				res, out, err := nativeReplay(specFor(&spec, rep.Cfg.ShrinkSet), rf, path, workDir)
 				replays++
 				outTxt = out
 				if err != nil {
@@ -974,7 +1007,7 @@ func main() {
 			"assert_queries": map[string]int{"unsat": rep.AssertQ[0], "sat": rep.AssertQ[1], "unknown": rep.AssertQ[2]},
 			"assertions":     rep.AssertsSeen, "assertions_decided_syntactically": rep.AssertSyntactic, "assertions_discharged_in_batched_queries": rep.AssertBatched, "solver_time_s": rep.SolverTime, "wall_s": rep.Wall, "steps": rep.Steps,
 			"outside_model": rep.Outside, "unwind": rep.Unwind, "inconclusive": rep.Inconclusive, "map_order": rep.Cfg.MapOrder, "sched": rep.Cfg.Sched,
-			"race_monitor": rep.Cfg.Race, "note": rep.Cfg.Note, "query_timeout_ms": rep.Cfg.TimeoutMs, "unwind_bound": rep.Cfg.Unwind,
+			"race_monitor": rep.Cfg.Race, "note": rep.Cfg.Note, "shrink_set": rep.Cfg.ShrinkSet, "query_timeout_ms": rep.Cfg.TimeoutMs, "unwind_bound": rep.Cfg.Unwind,
 		})
 	}
 	if states == 0 {
@@ -1013,6 +1046,7 @@ func main() {
 			"outside_claim":                 spec.OutsideClaim,
 			"counterexamples":               vioOut,
 			"shrink_overlays":               spec.Shrink,
+			"shrink_sets":                   spec.ShrinkSets,
 		},
 	}
 	eb, _ := json.MarshalIndent(ev, "", " ")
@@ -1056,7 +1090,13 @@ func doReplayCmd(path string) int {
 	workDir := filepath.Join(verifDir, "work", "replay-"+strconv.Itoa(os.Getpid()))
 	os.MkdirAll(workDir, 0o755)
 	defer os.RemoveAll(workDir)
-	res, out, err := nativeReplay(&spec, &rf, path, workDir)
+	rspec := &spec
+	for _, h := range spec.Harnesses {
+		if h.Name == rf.Harness {
+			rspec = specFor(&spec, h.ShrinkSet)
+		}
+	}
+	res, out, err := nativeReplay(rspec, &rf, path, workDir)
 	if err != nil {
 		fmt.Println("replay error:", err)
 		return 2
